@@ -104,7 +104,7 @@ func exact(b []byte) []byte {
 	return c[:len(c):len(c)]
 }
 
-func encBytes(f func() []byte) []int64 {
+func c17EncBytes(f func() []byte) []int64 {
 	var o []byte
 	if p := catch(func() { o = f() }); p != nil {
 		return []int64{-1}
@@ -295,7 +295,7 @@ var c17WsModel = &Model{
 			emit(bytesCase("c17_ws", nil, genWsString(r, 1+i%60)))
 		}
 	},
-	Impl:   func(c Case) []int64 { return encBytes(func() []byte { return parse.ReplaceMultipleWhitespace(exact(c17Bytes(c.Args))) }) },
+	Impl:   func(c Case) []int64 { return c17EncBytes(func() []byte { return parse.ReplaceMultipleWhitespace(exact(c17Bytes(c.Args))) }) },
 	Shrink: shrinkTail(func(Case) int { return 0 }),
 	Class: func(c Case, out []int64) string {
 		in := c17Bytes(c.Args)
@@ -385,7 +385,7 @@ var c17EntModel = &Model{
 	Gen:  entGen("c17_ent"),
 	Impl: func(c Case) []int64 {
 		e, r, rest := decodeMaps(c.Args)
-		return encBytes(func() []byte { return parse.ReplaceEntities(exact(c17Bytes(rest)), e, r) })
+		return c17EncBytes(func() []byte { return parse.ReplaceEntities(exact(c17Bytes(rest)), e, r) })
 	},
 	Shrink: shrinkTail(mapsPrefixLen),
 	Class:  entClass,
@@ -396,7 +396,7 @@ var c17WsEntModel = &Model{
 	Gen:  entGen("c17_wsent"),
 	Impl: func(c Case) []int64 {
 		e, r, rest := decodeMaps(c.Args)
-		return encBytes(func() []byte { return parse.ReplaceMultipleWhitespaceAndEntities(exact(c17Bytes(rest)), e, r) })
+		return c17EncBytes(func() []byte { return parse.ReplaceMultipleWhitespaceAndEntities(exact(c17Bytes(rest)), e, r) })
 	},
 	Shrink: shrinkTail(mapsPrefixLen),
 	Class:  entClass,
@@ -428,7 +428,7 @@ var c17HescModel = &Model{
 	},
 	Impl: func(c Case) []int64 {
 		b := c17Bytes(c.Args[2:])
-		return encBytes(func() []byte {
+		return c17EncBytes(func() []byte {
 			var buf []byte
 			if len(b)%3 == 1 {
 				buf = bytes.Repeat([]byte{'#'}, 64) // stale scratch content must not show
@@ -469,7 +469,7 @@ var c17XescModel = &Model{
 	},
 	Impl: func(c Case) []int64 {
 		b := c17Bytes(c.Args)
-		return encBytes(func() []byte {
+		return c17EncBytes(func() []byte {
 			var buf []byte
 			if len(b)%3 == 1 {
 				buf = bytes.Repeat([]byte{'#'}, 64)
